@@ -1,4 +1,9 @@
 
+(** val implb : bool -> bool -> bool **)
+
+let implb b1 b2 =
+  if b1 then b2 else true
+
 (** val negb : bool -> bool **)
 
 let negb = function
@@ -8,6 +13,11 @@ let negb = function
 type nat =
 | O
 | S of nat
+
+(** val fst : ('a1 * 'a2) -> 'a1 **)
+
+let fst = function
+| (x, _) -> x
 
 (** val snd : ('a1 * 'a2) -> 'a2 **)
 
@@ -132,6 +142,13 @@ module Coq_Pos =
   | XI p -> XI (XO p)
   | XO p -> XI (pred_double p)
   | XH -> XH
+
+  (** val pred_N : positive -> n **)
+
+  let pred_N = function
+  | XI p -> Npos (XO p)
+  | XO p -> Npos (pred_double p)
+  | XH -> N0
 
   type mask = Pos.mask =
   | IsNul
@@ -297,11 +314,45 @@ module Coq_Pos =
              | XO _ -> N0
              | _ -> Npos XH)
 
+  (** val coq_lxor : positive -> positive -> n **)
+
+  let rec coq_lxor p q =
+    match p with
+    | XI p0 ->
+      (match q with
+       | XI q0 -> coq_Ndouble (coq_lxor p0 q0)
+       | XO q0 -> coq_Nsucc_double (coq_lxor p0 q0)
+       | XH -> Npos (XO p0))
+    | XO p0 ->
+      (match q with
+       | XI q0 -> coq_Nsucc_double (coq_lxor p0 q0)
+       | XO q0 -> coq_Ndouble (coq_lxor p0 q0)
+       | XH -> Npos (XI p0))
+    | XH ->
+      (match q with
+       | XI q0 -> Npos (XO q0)
+       | XO q0 -> Npos (XI q0)
+       | XH -> N0)
+
   (** val shiftl : positive -> n -> positive **)
 
   let shiftl p = function
   | N0 -> p
   | Npos n1 -> iter (fun x -> XO x) p n1
+
+  (** val testbit : positive -> n -> bool **)
+
+  let rec testbit p n0 =
+    match p with
+    | XI p0 -> (match n0 with
+                | N0 -> true
+                | Npos n1 -> testbit p0 (pred_N n1))
+    | XO p0 -> (match n0 with
+                | N0 -> false
+                | Npos n1 -> testbit p0 (pred_N n1))
+    | XH -> (match n0 with
+             | N0 -> true
+             | Npos _ -> false)
 
   (** val iter_op : ('a1 -> 'a1 -> 'a1) -> positive -> 'a1 -> 'a1 **)
 
@@ -336,6 +387,12 @@ module N =
   let double = function
   | N0 -> N0
   | Npos p -> Npos (XO p)
+
+  (** val pred : n -> n **)
+
+  let pred = function
+  | N0 -> N0
+  | Npos p -> Coq_Pos.pred_N p
 
   (** val add : n -> n -> n **)
 
@@ -479,6 +536,15 @@ module N =
                  | N0 -> N0
                  | Npos q -> Coq_Pos.coq_land p q)
 
+  (** val coq_lxor : n -> n -> n **)
+
+  let coq_lxor n0 m =
+    match n0 with
+    | N0 -> m
+    | Npos p -> (match m with
+                 | N0 -> n0
+                 | Npos q -> Coq_Pos.coq_lxor p q)
+
   (** val shiftl : n -> n -> n **)
 
   let shiftl a n0 =
@@ -492,6 +558,13 @@ module N =
   | N0 -> a
   | Npos p -> Coq_Pos.iter div2 a p
 
+  (** val testbit : n -> n -> bool **)
+
+  let testbit a n0 =
+    match a with
+    | N0 -> false
+    | Npos p -> Coq_Pos.testbit p n0
+
   (** val to_nat : n -> nat **)
 
   let to_nat = function
@@ -503,7 +576,34 @@ module N =
   let of_nat = function
   | O -> N0
   | S n' -> Npos (Coq_Pos.of_succ_nat n')
+
+  (** val b2n : bool -> n **)
+
+  let b2n = function
+  | true -> Npos XH
+  | false -> N0
+
+  (** val ones : n -> n **)
+
+  let ones n0 =
+    pred (shiftl (Npos XH) n0)
+
+  (** val lnot : n -> n -> n **)
+
+  let lnot a n0 =
+    coq_lxor a (ones n0)
  end
+
+(** val nth : nat -> 'a1 list -> 'a1 -> 'a1 **)
+
+let rec nth n0 l default =
+  match n0 with
+  | O -> (match l with
+          | [] -> default
+          | x :: _ -> x)
+  | S m -> (match l with
+            | [] -> default
+            | _ :: t -> nth m t default)
 
 (** val nth_error : 'a1 list -> nat -> 'a1 option **)
 
@@ -520,6 +620,34 @@ let rec nth_error l = function
 let rec concat = function
 | [] -> []
 | x :: l0 -> app x (concat l0)
+
+(** val map : ('a1 -> 'a2) -> 'a1 list -> 'a2 list **)
+
+let rec map f = function
+| [] -> []
+| a :: t -> (f a) :: (map f t)
+
+(** val forallb : ('a1 -> bool) -> 'a1 list -> bool **)
+
+let rec forallb f = function
+| [] -> true
+| a :: l0 -> (&&) (f a) (forallb f l0)
+
+(** val filter : ('a1 -> bool) -> 'a1 list -> 'a1 list **)
+
+let rec filter f = function
+| [] -> []
+| x :: l0 -> if f x then x :: (filter f l0) else filter f l0
+
+(** val combine : 'a1 list -> 'a2 list -> ('a1 * 'a2) list **)
+
+let rec combine l l' =
+  match l with
+  | [] -> []
+  | x :: tl ->
+    (match l' with
+     | [] -> []
+     | y :: tl' -> (x, y) :: (combine tl tl'))
 
 (** val firstn : nat -> 'a1 list -> 'a1 list **)
 
@@ -538,6 +666,12 @@ let rec skipn n0 l =
   | S n1 -> (match l with
              | [] -> []
              | _ :: l0 -> skipn n1 l0)
+
+(** val seq : nat -> nat -> nat list **)
+
+let rec seq start = function
+| O -> []
+| S len0 -> start :: (seq (S start) len0)
 
 (** val repeat : 'a1 -> nat -> 'a1 list **)
 
@@ -4134,3 +4268,1334 @@ let rec strip_str_chunks chunks st =
         | Some p1 -> let (pss, st'') = p1 in Some ((ps :: pss), st'')
         | None -> None)
      | None -> None)
+
+(** val effect_plain : n **)
+
+let effect_plain =
+  N0
+
+(** val eff_bold : n **)
+
+let eff_bold =
+  N.shiftl (Npos XH) N0
+
+(** val eff_dimmed : n **)
+
+let eff_dimmed =
+  N.shiftl (Npos XH) (Npos XH)
+
+(** val eff_italic : n **)
+
+let eff_italic =
+  N.shiftl (Npos XH) (Npos (XO XH))
+
+(** val eff_underline : n **)
+
+let eff_underline =
+  N.shiftl (Npos XH) (Npos (XI XH))
+
+(** val eff_blink : n **)
+
+let eff_blink =
+  N.shiftl (Npos XH) (Npos (XO (XO (XO XH))))
+
+(** val eff_invert : n **)
+
+let eff_invert =
+  N.shiftl (Npos XH) (Npos (XI (XO (XO XH))))
+
+(** val eff_hidden : n **)
+
+let eff_hidden =
+  N.shiftl (Npos XH) (Npos (XO (XI (XO XH))))
+
+(** val eff_strikethrough : n **)
+
+let eff_strikethrough =
+  N.shiftl (Npos XH) (Npos (XI (XI (XO XH))))
+
+(** val effect_consts : (n list * n) list **)
+
+let effect_consts =
+  (((Npos (XO (XI (XO (XO (XO (XO XH))))))) :: ((Npos (XI (XI (XI (XI (XO (XO
+    XH))))))) :: ((Npos (XO (XO (XI (XI (XO (XO XH))))))) :: ((Npos (XO (XO
+    (XI (XO (XO (XO XH))))))) :: [])))), N0) :: ((((Npos (XO (XO (XI (XO (XO
+    (XO XH))))))) :: ((Npos (XI (XO (XO (XI (XO (XO XH))))))) :: ((Npos (XI
+    (XO (XI (XI (XO (XO XH))))))) :: ((Npos (XI (XO (XI (XI (XO (XO
+    XH))))))) :: ((Npos (XI (XO (XI (XO (XO (XO XH))))))) :: ((Npos (XO (XO
+    (XI (XO (XO (XO XH))))))) :: [])))))), (Npos XH)) :: ((((Npos (XI (XO (XO
+    (XI (XO (XO XH))))))) :: ((Npos (XO (XO (XI (XO (XI (XO
+    XH))))))) :: ((Npos (XI (XO (XO (XO (XO (XO XH))))))) :: ((Npos (XO (XO
+    (XI (XI (XO (XO XH))))))) :: ((Npos (XI (XO (XO (XI (XO (XO
+    XH))))))) :: ((Npos (XI (XI (XO (XO (XO (XO XH))))))) :: [])))))), (Npos
+    (XO XH))) :: ((((Npos (XI (XO (XI (XO (XI (XO XH))))))) :: ((Npos (XO (XI
+    (XI (XI (XO (XO XH))))))) :: ((Npos (XO (XO (XI (XO (XO (XO
+    XH))))))) :: ((Npos (XI (XO (XI (XO (XO (XO XH))))))) :: ((Npos (XO (XI
+    (XO (XO (XI (XO XH))))))) :: ((Npos (XO (XO (XI (XI (XO (XO
+    XH))))))) :: ((Npos (XI (XO (XO (XI (XO (XO XH))))))) :: ((Npos (XO (XI
+    (XI (XI (XO (XO XH))))))) :: ((Npos (XI (XO (XI (XO (XO (XO
+    XH))))))) :: []))))))))), (Npos (XI XH))) :: ((((Npos (XO (XO (XI (XO (XO
+    (XO XH))))))) :: ((Npos (XI (XI (XI (XI (XO (XO XH))))))) :: ((Npos (XI
+    (XO (XI (XO (XI (XO XH))))))) :: ((Npos (XO (XI (XO (XO (XO (XO
+    XH))))))) :: ((Npos (XO (XO (XI (XI (XO (XO XH))))))) :: ((Npos (XI (XO
+    (XI (XO (XO (XO XH))))))) :: ((Npos (XI (XI (XI (XI (XI (XO
+    XH))))))) :: ((Npos (XI (XO (XI (XO (XI (XO XH))))))) :: ((Npos (XO (XI
+    (XI (XI (XO (XO XH))))))) :: ((Npos (XO (XO (XI (XO (XO (XO
+    XH))))))) :: ((Npos (XI (XO (XI (XO (XO (XO XH))))))) :: ((Npos (XO (XI
+    (XO (XO (XI (XO XH))))))) :: ((Npos (XO (XO (XI (XI (XO (XO
+    XH))))))) :: ((Npos (XI (XO (XO (XI (XO (XO XH))))))) :: ((Npos (XO (XI
+    (XI (XI (XO (XO XH))))))) :: ((Npos (XI (XO (XI (XO (XO (XO
+    XH))))))) :: [])))))))))))))))), (Npos (XO (XO XH)))) :: ((((Npos (XI (XI
+    (XO (XO (XO (XO XH))))))) :: ((Npos (XI (XO (XI (XO (XI (XO
+    XH))))))) :: ((Npos (XO (XI (XO (XO (XI (XO XH))))))) :: ((Npos (XO (XO
+    (XI (XI (XO (XO XH))))))) :: ((Npos (XI (XO (XO (XI (XI (XO
+    XH))))))) :: ((Npos (XI (XI (XI (XI (XI (XO XH))))))) :: ((Npos (XI (XO
+    (XI (XO (XI (XO XH))))))) :: ((Npos (XO (XI (XI (XI (XO (XO
+    XH))))))) :: ((Npos (XO (XO (XI (XO (XO (XO XH))))))) :: ((Npos (XI (XO
+    (XI (XO (XO (XO XH))))))) :: ((Npos (XO (XI (XO (XO (XI (XO
+    XH))))))) :: ((Npos (XO (XO (XI (XI (XO (XO XH))))))) :: ((Npos (XI (XO
+    (XO (XI (XO (XO XH))))))) :: ((Npos (XO (XI (XI (XI (XO (XO
+    XH))))))) :: ((Npos (XI (XO (XI (XO (XO (XO
+    XH))))))) :: []))))))))))))))), (Npos (XI (XO XH)))) :: ((((Npos (XO (XO
+    (XI (XO (XO (XO XH))))))) :: ((Npos (XI (XI (XI (XI (XO (XO
+    XH))))))) :: ((Npos (XO (XO (XI (XO (XI (XO XH))))))) :: ((Npos (XO (XO
+    (XI (XO (XI (XO XH))))))) :: ((Npos (XI (XO (XI (XO (XO (XO
+    XH))))))) :: ((Npos (XO (XO (XI (XO (XO (XO XH))))))) :: ((Npos (XI (XI
+    (XI (XI (XI (XO XH))))))) :: ((Npos (XI (XO (XI (XO (XI (XO
+    XH))))))) :: ((Npos (XO (XI (XI (XI (XO (XO XH))))))) :: ((Npos (XO (XO
+    (XI (XO (XO (XO XH))))))) :: ((Npos (XI (XO (XI (XO (XO (XO
+    XH))))))) :: ((Npos (XO (XI (XO (XO (XI (XO XH))))))) :: ((Npos (XO (XO
+    (XI (XI (XO (XO XH))))))) :: ((Npos (XI (XO (XO (XI (XO (XO
+    XH))))))) :: ((Npos (XO (XI (XI (XI (XO (XO XH))))))) :: ((Npos (XI (XO
+    (XI (XO (XO (XO XH))))))) :: [])))))))))))))))), (Npos (XO (XI
+    XH)))) :: ((((Npos (XO (XO (XI (XO (XO (XO XH))))))) :: ((Npos (XI (XO
+    (XO (XO (XO (XO XH))))))) :: ((Npos (XI (XI (XO (XO (XI (XO
+    XH))))))) :: ((Npos (XO (XO (XO (XI (XO (XO XH))))))) :: ((Npos (XI (XO
+    (XI (XO (XO (XO XH))))))) :: ((Npos (XO (XO (XI (XO (XO (XO
+    XH))))))) :: ((Npos (XI (XI (XI (XI (XI (XO XH))))))) :: ((Npos (XI (XO
+    (XI (XO (XI (XO XH))))))) :: ((Npos (XO (XI (XI (XI (XO (XO
+    XH))))))) :: ((Npos (XO (XO (XI (XO (XO (XO XH))))))) :: ((Npos (XI (XO
+    (XI (XO (XO (XO XH))))))) :: ((Npos (XO (XI (XO (XO (XI (XO
+    XH))))))) :: ((Npos (XO (XO (XI (XI (XO (XO XH))))))) :: ((Npos (XI (XO
+    (XO (XI (XO (XO XH))))))) :: ((Npos (XO (XI (XI (XI (XO (XO
+    XH))))))) :: ((Npos (XI (XO (XI (XO (XO (XO
+    XH))))))) :: [])))))))))))))))), (Npos (XI (XI XH)))) :: ((((Npos (XO (XI
+    (XO (XO (XO (XO XH))))))) :: ((Npos (XO (XO (XI (XI (XO (XO
+    XH))))))) :: ((Npos (XI (XO (XO (XI (XO (XO XH))))))) :: ((Npos (XO (XI
+    (XI (XI (XO (XO XH))))))) :: ((Npos (XI (XI (XO (XI (XO (XO
+    XH))))))) :: []))))), (Npos (XO (XO (XO XH))))) :: ((((Npos (XI (XO (XO
+    (XI (XO (XO XH))))))) :: ((Npos (XO (XI (XI (XI (XO (XO
+    XH))))))) :: ((Npos (XO (XI (XI (XO (XI (XO XH))))))) :: ((Npos (XI (XO
+    (XI (XO (XO (XO XH))))))) :: ((Npos (XO (XI (XO (XO (XI (XO
+    XH))))))) :: ((Npos (XO (XO (XI (XO (XI (XO XH))))))) :: [])))))), (Npos
+    (XI (XO (XO XH))))) :: ((((Npos (XO (XO (XO (XI (XO (XO
+    XH))))))) :: ((Npos (XI (XO (XO (XI (XO (XO XH))))))) :: ((Npos (XO (XO
+    (XI (XO (XO (XO XH))))))) :: ((Npos (XO (XO (XI (XO (XO (XO
+    XH))))))) :: ((Npos (XI (XO (XI (XO (XO (XO XH))))))) :: ((Npos (XO (XI
+    (XI (XI (XO (XO XH))))))) :: [])))))), (Npos (XO (XI (XO
+    XH))))) :: ((((Npos (XI (XI (XO (XO (XI (XO XH))))))) :: ((Npos (XO (XO
+    (XI (XO (XI (XO XH))))))) :: ((Npos (XO (XI (XO (XO (XI (XO
+    XH))))))) :: ((Npos (XI (XO (XO (XI (XO (XO XH))))))) :: ((Npos (XI (XI
+    (XO (XI (XO (XO XH))))))) :: ((Npos (XI (XO (XI (XO (XO (XO
+    XH))))))) :: ((Npos (XO (XO (XI (XO (XI (XO XH))))))) :: ((Npos (XO (XO
+    (XO (XI (XO (XO XH))))))) :: ((Npos (XO (XI (XO (XO (XI (XO
+    XH))))))) :: ((Npos (XI (XI (XI (XI (XO (XO XH))))))) :: ((Npos (XI (XO
+    (XI (XO (XI (XO XH))))))) :: ((Npos (XI (XI (XI (XO (XO (XO
+    XH))))))) :: ((Npos (XO (XO (XO (XI (XO (XO XH))))))) :: []))))))))))))),
+    (Npos (XI (XI (XO XH))))) :: [])))))))))))
+
+(** val metadata : (n list * n list) list **)
+
+let metadata =
+  (((Npos (XO (XI (XO (XO (XO (XO XH))))))) :: ((Npos (XI (XI (XI (XI (XO (XO
+    XH))))))) :: ((Npos (XO (XO (XI (XI (XO (XO XH))))))) :: ((Npos (XO (XO
+    (XI (XO (XO (XO XH))))))) :: [])))), ((Npos (XI (XI (XO (XI
+    XH))))) :: ((Npos (XI (XI (XO (XI (XI (XO XH))))))) :: ((Npos (XI (XO (XO
+    (XO (XI XH)))))) :: ((Npos (XI (XO (XI (XI (XO (XI
+    XH))))))) :: []))))) :: ((((Npos (XO (XO (XI (XO (XO (XO
+    XH))))))) :: ((Npos (XI (XO (XO (XI (XO (XO XH))))))) :: ((Npos (XI (XO
+    (XI (XI (XO (XO XH))))))) :: ((Npos (XI (XO (XI (XI (XO (XO
+    XH))))))) :: ((Npos (XI (XO (XI (XO (XO (XO XH))))))) :: ((Npos (XO (XO
+    (XI (XO (XO (XO XH))))))) :: [])))))), ((Npos (XI (XI (XO (XI
+    XH))))) :: ((Npos (XI (XI (XO (XI (XI (XO XH))))))) :: ((Npos (XO (XI (XO
+    (XO (XI XH)))))) :: ((Npos (XI (XO (XI (XI (XO (XI
+    XH))))))) :: []))))) :: ((((Npos (XI (XO (XO (XI (XO (XO
+    XH))))))) :: ((Npos (XO (XO (XI (XO (XI (XO XH))))))) :: ((Npos (XI (XO
+    (XO (XO (XO (XO XH))))))) :: ((Npos (XO (XO (XI (XI (XO (XO
+    XH))))))) :: ((Npos (XI (XO (XO (XI (XO (XO XH))))))) :: ((Npos (XI (XI
+    (XO (XO (XO (XO XH))))))) :: [])))))), ((Npos (XI (XI (XO (XI
+    XH))))) :: ((Npos (XI (XI (XO (XI (XI (XO XH))))))) :: ((Npos (XI (XI (XO
+    (XO (XI XH)))))) :: ((Npos (XI (XO (XI (XI (XO (XI
+    XH))))))) :: []))))) :: ((((Npos (XI (XO (XI (XO (XI (XO
+    XH))))))) :: ((Npos (XO (XI (XI (XI (XO (XO XH))))))) :: ((Npos (XO (XO
+    (XI (XO (XO (XO XH))))))) :: ((Npos (XI (XO (XI (XO (XO (XO
+    XH))))))) :: ((Npos (XO (XI (XO (XO (XI (XO XH))))))) :: ((Npos (XO (XO
+    (XI (XI (XO (XO XH))))))) :: ((Npos (XI (XO (XO (XI (XO (XO
+    XH))))))) :: ((Npos (XO (XI (XI (XI (XO (XO XH))))))) :: ((Npos (XI (XO
+    (XI (XO (XO (XO XH))))))) :: []))))))))), ((Npos (XI (XI (XO (XI
+    XH))))) :: ((Npos (XI (XI (XO (XI (XI (XO XH))))))) :: ((Npos (XO (XO (XI
+    (XO (XI XH)))))) :: ((Npos (XI (XO (XI (XI (XO (XI
+    XH))))))) :: []))))) :: ((((Npos (XO (XO (XI (XO (XO (XO
+    XH))))))) :: ((Npos (XI (XI (XI (XI (XO (XO XH))))))) :: ((Npos (XI (XO
+    (XI (XO (XI (XO XH))))))) :: ((Npos (XO (XI (XO (XO (XO (XO
+    XH))))))) :: ((Npos (XO (XO (XI (XI (XO (XO XH))))))) :: ((Npos (XI (XO
+    (XI (XO (XO (XO XH))))))) :: ((Npos (XI (XI (XI (XI (XI (XO
+    XH))))))) :: ((Npos (XI (XO (XI (XO (XI (XO XH))))))) :: ((Npos (XO (XI
+    (XI (XI (XO (XO XH))))))) :: ((Npos (XO (XO (XI (XO (XO (XO
+    XH))))))) :: ((Npos (XI (XO (XI (XO (XO (XO XH))))))) :: ((Npos (XO (XI
+    (XO (XO (XI (XO XH))))))) :: ((Npos (XO (XO (XI (XI (XO (XO
+    XH))))))) :: ((Npos (XI (XO (XO (XI (XO (XO XH))))))) :: ((Npos (XO (XI
+    (XI (XI (XO (XO XH))))))) :: ((Npos (XI (XO (XI (XO (XO (XO
+    XH))))))) :: [])))))))))))))))), ((Npos (XI (XI (XO (XI XH))))) :: ((Npos
+    (XI (XI (XO (XI (XI (XO XH))))))) :: ((Npos (XO (XI (XO (XO (XI
+    XH)))))) :: ((Npos (XI (XO (XO (XO (XI XH)))))) :: ((Npos (XI (XO (XI (XI
+    (XO (XI XH))))))) :: [])))))) :: ((((Npos (XI (XI (XO (XO (XO (XO
+    XH))))))) :: ((Npos (XI (XO (XI (XO (XI (XO XH))))))) :: ((Npos (XO (XI
+    (XO (XO (XI (XO XH))))))) :: ((Npos (XO (XO (XI (XI (XO (XO
+    XH))))))) :: ((Npos (XI (XO (XO (XI (XI (XO XH))))))) :: ((Npos (XI (XI
+    (XI (XI (XI (XO XH))))))) :: ((Npos (XI (XO (XI (XO (XI (XO
+    XH))))))) :: ((Npos (XO (XI (XI (XI (XO (XO XH))))))) :: ((Npos (XO (XO
+    (XI (XO (XO (XO XH))))))) :: ((Npos (XI (XO (XI (XO (XO (XO
+    XH))))))) :: ((Npos (XO (XI (XO (XO (XI (XO XH))))))) :: ((Npos (XO (XO
+    (XI (XI (XO (XO XH))))))) :: ((Npos (XI (XO (XO (XI (XO (XO
+    XH))))))) :: ((Npos (XO (XI (XI (XI (XO (XO XH))))))) :: ((Npos (XI (XO
+    (XI (XO (XO (XO XH))))))) :: []))))))))))))))), ((Npos (XI (XI (XO (XI
+    XH))))) :: ((Npos (XI (XI (XO (XI (XI (XO XH))))))) :: ((Npos (XO (XO (XI
+    (XO (XI XH)))))) :: ((Npos (XO (XI (XO (XI (XI XH)))))) :: ((Npos (XI (XI
+    (XO (XO (XI XH)))))) :: ((Npos (XI (XO (XI (XI (XO (XI
+    XH))))))) :: []))))))) :: ((((Npos (XO (XO (XI (XO (XO (XO
+    XH))))))) :: ((Npos (XI (XI (XI (XI (XO (XO XH))))))) :: ((Npos (XO (XO
+    (XI (XO (XI (XO XH))))))) :: ((Npos (XO (XO (XI (XO (XI (XO
+    XH))))))) :: ((Npos (XI (XO (XI (XO (XO (XO XH))))))) :: ((Npos (XO (XO
+    (XI (XO (XO (XO XH))))))) :: ((Npos (XI (XI (XI (XI (XI (XO
+    XH))))))) :: ((Npos (XI (XO (XI (XO (XI (XO XH))))))) :: ((Npos (XO (XI
+    (XI (XI (XO (XO XH))))))) :: ((Npos (XO (XO (XI (XO (XO (XO
+    XH))))))) :: ((Npos (XI (XO (XI (XO (XO (XO XH))))))) :: ((Npos (XO (XI
+    (XO (XO (XI (XO XH))))))) :: ((Npos (XO (XO (XI (XI (XO (XO
+    XH))))))) :: ((Npos (XI (XO (XO (XI (XO (XO XH))))))) :: ((Npos (XO (XI
+    (XI (XI (XO (XO XH))))))) :: ((Npos (XI (XO (XI (XO (XO (XO
+    XH))))))) :: [])))))))))))))))), ((Npos (XI (XI (XO (XI XH))))) :: ((Npos
+    (XI (XI (XO (XI (XI (XO XH))))))) :: ((Npos (XO (XO (XI (XO (XI
+    XH)))))) :: ((Npos (XO (XI (XO (XI (XI XH)))))) :: ((Npos (XO (XO (XI (XO
+    (XI XH)))))) :: ((Npos (XI (XO (XI (XI (XO (XI
+    XH))))))) :: []))))))) :: ((((Npos (XO (XO (XI (XO (XO (XO
+    XH))))))) :: ((Npos (XI (XO (XO (XO (XO (XO XH))))))) :: ((Npos (XI (XI
+    (XO (XO (XI (XO XH))))))) :: ((Npos (XO (XO (XO (XI (XO (XO
+    XH))))))) :: ((Npos (XI (XO (XI (XO (XO (XO XH))))))) :: ((Npos (XO (XO
+    (XI (XO (XO (XO XH))))))) :: ((Npos (XI (XI (XI (XI (XI (XO
+    XH))))))) :: ((Npos (XI (XO (XI (XO (XI (XO XH))))))) :: ((Npos (XO (XI
+    (XI (XI (XO (XO XH))))))) :: ((Npos (XO (XO (XI (XO (XO (XO
+    XH))))))) :: ((Npos (XI (XO (XI (XO (XO (XO XH))))))) :: ((Npos (XO (XI
+    (XO (XO (XI (XO XH))))))) :: ((Npos (XO (XO (XI (XI (XO (XO
+    XH))))))) :: ((Npos (XI (XO (XO (XI (XO (XO XH))))))) :: ((Npos (XO (XI
+    (XI (XI (XO (XO XH))))))) :: ((Npos (XI (XO (XI (XO (XO (XO
+    XH))))))) :: [])))))))))))))))), ((Npos (XI (XI (XO (XI XH))))) :: ((Npos
+    (XI (XI (XO (XI (XI (XO XH))))))) :: ((Npos (XO (XO (XI (XO (XI
+    XH)))))) :: ((Npos (XO (XI (XO (XI (XI XH)))))) :: ((Npos (XI (XO (XI (XO
+    (XI XH)))))) :: ((Npos (XI (XO (XI (XI (XO (XI
+    XH))))))) :: []))))))) :: ((((Npos (XO (XI (XO (XO (XO (XO
+    XH))))))) :: ((Npos (XO (XO (XI (XI (XO (XO XH))))))) :: ((Npos (XI (XO
+    (XO (XI (XO (XO XH))))))) :: ((Npos (XO (XI (XI (XI (XO (XO
+    XH))))))) :: ((Npos (XI (XI (XO (XI (XO (XO XH))))))) :: []))))), ((Npos
+    (XI (XI (XO (XI XH))))) :: ((Npos (XI (XI (XO (XI (XI (XO
+    XH))))))) :: ((Npos (XI (XO (XI (XO (XI XH)))))) :: ((Npos (XI (XO (XI
+    (XI (XO (XI XH))))))) :: []))))) :: ((((Npos (XI (XO (XO (XI (XO (XO
+    XH))))))) :: ((Npos (XO (XI (XI (XI (XO (XO XH))))))) :: ((Npos (XO (XI
+    (XI (XO (XI (XO XH))))))) :: ((Npos (XI (XO (XI (XO (XO (XO
+    XH))))))) :: ((Npos (XO (XI (XO (XO (XI (XO XH))))))) :: ((Npos (XO (XO
+    (XI (XO (XI (XO XH))))))) :: [])))))), ((Npos (XI (XI (XO (XI
+    XH))))) :: ((Npos (XI (XI (XO (XI (XI (XO XH))))))) :: ((Npos (XI (XI (XI
+    (XO (XI XH)))))) :: ((Npos (XI (XO (XI (XI (XO (XI
+    XH))))))) :: []))))) :: ((((Npos (XO (XO (XO (XI (XO (XO
+    XH))))))) :: ((Npos (XI (XO (XO (XI (XO (XO XH))))))) :: ((Npos (XO (XO
+    (XI (XO (XO (XO XH))))))) :: ((Npos (XO (XO (XI (XO (XO (XO
+    XH))))))) :: ((Npos (XI (XO (XI (XO (XO (XO XH))))))) :: ((Npos (XO (XI
+    (XI (XI (XO (XO XH))))))) :: [])))))), ((Npos (XI (XI (XO (XI
+    XH))))) :: ((Npos (XI (XI (XO (XI (XI (XO XH))))))) :: ((Npos (XO (XO (XO
+    (XI (XI XH)))))) :: ((Npos (XI (XO (XI (XI (XO (XI
+    XH))))))) :: []))))) :: ((((Npos (XI (XI (XO (XO (XI (XO
+    XH))))))) :: ((Npos (XO (XO (XI (XO (XI (XO XH))))))) :: ((Npos (XO (XI
+    (XO (XO (XI (XO XH))))))) :: ((Npos (XI (XO (XO (XI (XO (XO
+    XH))))))) :: ((Npos (XI (XI (XO (XI (XO (XO XH))))))) :: ((Npos (XI (XO
+    (XI (XO (XO (XO XH))))))) :: ((Npos (XO (XO (XI (XO (XI (XO
+    XH))))))) :: ((Npos (XO (XO (XO (XI (XO (XO XH))))))) :: ((Npos (XO (XI
+    (XO (XO (XI (XO XH))))))) :: ((Npos (XI (XI (XI (XI (XO (XO
+    XH))))))) :: ((Npos (XI (XO (XI (XO (XI (XO XH))))))) :: ((Npos (XI (XI
+    (XI (XO (XO (XO XH))))))) :: ((Npos (XO (XO (XO (XI (XO (XO
+    XH))))))) :: []))))))))))))), ((Npos (XI (XI (XO (XI XH))))) :: ((Npos
+    (XI (XI (XO (XI (XI (XO XH))))))) :: ((Npos (XI (XO (XO (XI (XI
+    XH)))))) :: ((Npos (XI (XO (XI (XI (XO (XI
+    XH))))))) :: []))))) :: [])))))))))))
+
+type ansi_color =
+| Black
+| Red
+| Green
+| Yellow
+| Blue
+| Magenta
+| Cyan
+| White
+| BrightBlack
+| BrightRed
+| BrightGreen
+| BrightYellow
+| BrightBlue
+| BrightMagenta
+| BrightCyan
+| BrightWhite
+
+(** val all_ansi : ansi_color list **)
+
+let all_ansi =
+  Black :: (Red :: (Green :: (Yellow :: (Blue :: (Magenta :: (Cyan :: (White :: (BrightBlack :: (BrightRed :: (BrightGreen :: (BrightYellow :: (BrightBlue :: (BrightMagenta :: (BrightCyan :: (BrightWhite :: [])))))))))))))))
+
+(** val ansi_disc : ansi_color -> n **)
+
+let ansi_disc = function
+| Black -> N0
+| Red -> Npos XH
+| Green -> Npos (XO XH)
+| Yellow -> Npos (XI XH)
+| Blue -> Npos (XO (XO XH))
+| Magenta -> Npos (XI (XO XH))
+| Cyan -> Npos (XO (XI XH))
+| White -> Npos (XI (XI XH))
+| BrightBlack -> Npos (XO (XO (XO XH)))
+| BrightRed -> Npos (XI (XO (XO XH)))
+| BrightGreen -> Npos (XO (XI (XO XH)))
+| BrightYellow -> Npos (XI (XI (XO XH)))
+| BrightBlue -> Npos (XO (XO (XI XH)))
+| BrightMagenta -> Npos (XI (XO (XI XH)))
+| BrightCyan -> Npos (XO (XI (XI XH)))
+| BrightWhite -> Npos (XI (XI (XI XH)))
+
+(** val ansi_fg_str : ansi_color -> n list **)
+
+let ansi_fg_str = function
+| Black ->
+  (Npos (XI (XI (XO (XI XH))))) :: ((Npos (XI (XI (XO (XI (XI (XO
+    XH))))))) :: ((Npos (XI (XI (XO (XO (XI XH)))))) :: ((Npos (XO (XO (XO
+    (XO (XI XH)))))) :: ((Npos (XI (XO (XI (XI (XO (XI XH))))))) :: []))))
+| Red ->
+  (Npos (XI (XI (XO (XI XH))))) :: ((Npos (XI (XI (XO (XI (XI (XO
+    XH))))))) :: ((Npos (XI (XI (XO (XO (XI XH)))))) :: ((Npos (XI (XO (XO
+    (XO (XI XH)))))) :: ((Npos (XI (XO (XI (XI (XO (XI XH))))))) :: []))))
+| Green ->
+  (Npos (XI (XI (XO (XI XH))))) :: ((Npos (XI (XI (XO (XI (XI (XO
+    XH))))))) :: ((Npos (XI (XI (XO (XO (XI XH)))))) :: ((Npos (XO (XI (XO
+    (XO (XI XH)))))) :: ((Npos (XI (XO (XI (XI (XO (XI XH))))))) :: []))))
+| Yellow ->
+  (Npos (XI (XI (XO (XI XH))))) :: ((Npos (XI (XI (XO (XI (XI (XO
+    XH))))))) :: ((Npos (XI (XI (XO (XO (XI XH)))))) :: ((Npos (XI (XI (XO
+    (XO (XI XH)))))) :: ((Npos (XI (XO (XI (XI (XO (XI XH))))))) :: []))))
+| Blue ->
+  (Npos (XI (XI (XO (XI XH))))) :: ((Npos (XI (XI (XO (XI (XI (XO
+    XH))))))) :: ((Npos (XI (XI (XO (XO (XI XH)))))) :: ((Npos (XO (XO (XI
+    (XO (XI XH)))))) :: ((Npos (XI (XO (XI (XI (XO (XI XH))))))) :: []))))
+| Magenta ->
+  (Npos (XI (XI (XO (XI XH))))) :: ((Npos (XI (XI (XO (XI (XI (XO
+    XH))))))) :: ((Npos (XI (XI (XO (XO (XI XH)))))) :: ((Npos (XI (XO (XI
+    (XO (XI XH)))))) :: ((Npos (XI (XO (XI (XI (XO (XI XH))))))) :: []))))
+| Cyan ->
+  (Npos (XI (XI (XO (XI XH))))) :: ((Npos (XI (XI (XO (XI (XI (XO
+    XH))))))) :: ((Npos (XI (XI (XO (XO (XI XH)))))) :: ((Npos (XO (XI (XI
+    (XO (XI XH)))))) :: ((Npos (XI (XO (XI (XI (XO (XI XH))))))) :: []))))
+| White ->
+  (Npos (XI (XI (XO (XI XH))))) :: ((Npos (XI (XI (XO (XI (XI (XO
+    XH))))))) :: ((Npos (XI (XI (XO (XO (XI XH)))))) :: ((Npos (XI (XI (XI
+    (XO (XI XH)))))) :: ((Npos (XI (XO (XI (XI (XO (XI XH))))))) :: []))))
+| BrightBlack ->
+  (Npos (XI (XI (XO (XI XH))))) :: ((Npos (XI (XI (XO (XI (XI (XO
+    XH))))))) :: ((Npos (XI (XO (XO (XI (XI XH)))))) :: ((Npos (XO (XO (XO
+    (XO (XI XH)))))) :: ((Npos (XI (XO (XI (XI (XO (XI XH))))))) :: []))))
+| BrightRed ->
+  (Npos (XI (XI (XO (XI XH))))) :: ((Npos (XI (XI (XO (XI (XI (XO
+    XH))))))) :: ((Npos (XI (XO (XO (XI (XI XH)))))) :: ((Npos (XI (XO (XO
+    (XO (XI XH)))))) :: ((Npos (XI (XO (XI (XI (XO (XI XH))))))) :: []))))
+| BrightGreen ->
+  (Npos (XI (XI (XO (XI XH))))) :: ((Npos (XI (XI (XO (XI (XI (XO
+    XH))))))) :: ((Npos (XI (XO (XO (XI (XI XH)))))) :: ((Npos (XO (XI (XO
+    (XO (XI XH)))))) :: ((Npos (XI (XO (XI (XI (XO (XI XH))))))) :: []))))
+| BrightYellow ->
+  (Npos (XI (XI (XO (XI XH))))) :: ((Npos (XI (XI (XO (XI (XI (XO
+    XH))))))) :: ((Npos (XI (XO (XO (XI (XI XH)))))) :: ((Npos (XI (XI (XO
+    (XO (XI XH)))))) :: ((Npos (XI (XO (XI (XI (XO (XI XH))))))) :: []))))
+| BrightBlue ->
+  (Npos (XI (XI (XO (XI XH))))) :: ((Npos (XI (XI (XO (XI (XI (XO
+    XH))))))) :: ((Npos (XI (XO (XO (XI (XI XH)))))) :: ((Npos (XO (XO (XI
+    (XO (XI XH)))))) :: ((Npos (XI (XO (XI (XI (XO (XI XH))))))) :: []))))
+| BrightMagenta ->
+  (Npos (XI (XI (XO (XI XH))))) :: ((Npos (XI (XI (XO (XI (XI (XO
+    XH))))))) :: ((Npos (XI (XO (XO (XI (XI XH)))))) :: ((Npos (XI (XO (XI
+    (XO (XI XH)))))) :: ((Npos (XI (XO (XI (XI (XO (XI XH))))))) :: []))))
+| BrightCyan ->
+  (Npos (XI (XI (XO (XI XH))))) :: ((Npos (XI (XI (XO (XI (XI (XO
+    XH))))))) :: ((Npos (XI (XO (XO (XI (XI XH)))))) :: ((Npos (XO (XI (XI
+    (XO (XI XH)))))) :: ((Npos (XI (XO (XI (XI (XO (XI XH))))))) :: []))))
+| BrightWhite ->
+  (Npos (XI (XI (XO (XI XH))))) :: ((Npos (XI (XI (XO (XI (XI (XO
+    XH))))))) :: ((Npos (XI (XO (XO (XI (XI XH)))))) :: ((Npos (XI (XI (XI
+    (XO (XI XH)))))) :: ((Npos (XI (XO (XI (XI (XO (XI XH))))))) :: []))))
+
+(** val ansi_bg_str : ansi_color -> n list **)
+
+let ansi_bg_str = function
+| Black ->
+  (Npos (XI (XI (XO (XI XH))))) :: ((Npos (XI (XI (XO (XI (XI (XO
+    XH))))))) :: ((Npos (XO (XO (XI (XO (XI XH)))))) :: ((Npos (XO (XO (XO
+    (XO (XI XH)))))) :: ((Npos (XI (XO (XI (XI (XO (XI XH))))))) :: []))))
+| Red ->
+  (Npos (XI (XI (XO (XI XH))))) :: ((Npos (XI (XI (XO (XI (XI (XO
+    XH))))))) :: ((Npos (XO (XO (XI (XO (XI XH)))))) :: ((Npos (XI (XO (XO
+    (XO (XI XH)))))) :: ((Npos (XI (XO (XI (XI (XO (XI XH))))))) :: []))))
+| Green ->
+  (Npos (XI (XI (XO (XI XH))))) :: ((Npos (XI (XI (XO (XI (XI (XO
+    XH))))))) :: ((Npos (XO (XO (XI (XO (XI XH)))))) :: ((Npos (XO (XI (XO
+    (XO (XI XH)))))) :: ((Npos (XI (XO (XI (XI (XO (XI XH))))))) :: []))))
+| Yellow ->
+  (Npos (XI (XI (XO (XI XH))))) :: ((Npos (XI (XI (XO (XI (XI (XO
+    XH))))))) :: ((Npos (XO (XO (XI (XO (XI XH)))))) :: ((Npos (XI (XI (XO
+    (XO (XI XH)))))) :: ((Npos (XI (XO (XI (XI (XO (XI XH))))))) :: []))))
+| Blue ->
+  (Npos (XI (XI (XO (XI XH))))) :: ((Npos (XI (XI (XO (XI (XI (XO
+    XH))))))) :: ((Npos (XO (XO (XI (XO (XI XH)))))) :: ((Npos (XO (XO (XI
+    (XO (XI XH)))))) :: ((Npos (XI (XO (XI (XI (XO (XI XH))))))) :: []))))
+| Magenta ->
+  (Npos (XI (XI (XO (XI XH))))) :: ((Npos (XI (XI (XO (XI (XI (XO
+    XH))))))) :: ((Npos (XO (XO (XI (XO (XI XH)))))) :: ((Npos (XI (XO (XI
+    (XO (XI XH)))))) :: ((Npos (XI (XO (XI (XI (XO (XI XH))))))) :: []))))
+| Cyan ->
+  (Npos (XI (XI (XO (XI XH))))) :: ((Npos (XI (XI (XO (XI (XI (XO
+    XH))))))) :: ((Npos (XO (XO (XI (XO (XI XH)))))) :: ((Npos (XO (XI (XI
+    (XO (XI XH)))))) :: ((Npos (XI (XO (XI (XI (XO (XI XH))))))) :: []))))
+| White ->
+  (Npos (XI (XI (XO (XI XH))))) :: ((Npos (XI (XI (XO (XI (XI (XO
+    XH))))))) :: ((Npos (XO (XO (XI (XO (XI XH)))))) :: ((Npos (XI (XI (XI
+    (XO (XI XH)))))) :: ((Npos (XI (XO (XI (XI (XO (XI XH))))))) :: []))))
+| BrightBlack ->
+  (Npos (XI (XI (XO (XI XH))))) :: ((Npos (XI (XI (XO (XI (XI (XO
+    XH))))))) :: ((Npos (XI (XO (XO (XO (XI XH)))))) :: ((Npos (XO (XO (XO
+    (XO (XI XH)))))) :: ((Npos (XO (XO (XO (XO (XI XH)))))) :: ((Npos (XI (XO
+    (XI (XI (XO (XI XH))))))) :: [])))))
+| BrightRed ->
+  (Npos (XI (XI (XO (XI XH))))) :: ((Npos (XI (XI (XO (XI (XI (XO
+    XH))))))) :: ((Npos (XI (XO (XO (XO (XI XH)))))) :: ((Npos (XO (XO (XO
+    (XO (XI XH)))))) :: ((Npos (XI (XO (XO (XO (XI XH)))))) :: ((Npos (XI (XO
+    (XI (XI (XO (XI XH))))))) :: [])))))
+| BrightGreen ->
+  (Npos (XI (XI (XO (XI XH))))) :: ((Npos (XI (XI (XO (XI (XI (XO
+    XH))))))) :: ((Npos (XI (XO (XO (XO (XI XH)))))) :: ((Npos (XO (XO (XO
+    (XO (XI XH)))))) :: ((Npos (XO (XI (XO (XO (XI XH)))))) :: ((Npos (XI (XO
+    (XI (XI (XO (XI XH))))))) :: [])))))
+| BrightYellow ->
+  (Npos (XI (XI (XO (XI XH))))) :: ((Npos (XI (XI (XO (XI (XI (XO
+    XH))))))) :: ((Npos (XI (XO (XO (XO (XI XH)))))) :: ((Npos (XO (XO (XO
+    (XO (XI XH)))))) :: ((Npos (XI (XI (XO (XO (XI XH)))))) :: ((Npos (XI (XO
+    (XI (XI (XO (XI XH))))))) :: [])))))
+| BrightBlue ->
+  (Npos (XI (XI (XO (XI XH))))) :: ((Npos (XI (XI (XO (XI (XI (XO
+    XH))))))) :: ((Npos (XI (XO (XO (XO (XI XH)))))) :: ((Npos (XO (XO (XO
+    (XO (XI XH)))))) :: ((Npos (XO (XO (XI (XO (XI XH)))))) :: ((Npos (XI (XO
+    (XI (XI (XO (XI XH))))))) :: [])))))
+| BrightMagenta ->
+  (Npos (XI (XI (XO (XI XH))))) :: ((Npos (XI (XI (XO (XI (XI (XO
+    XH))))))) :: ((Npos (XI (XO (XO (XO (XI XH)))))) :: ((Npos (XO (XO (XO
+    (XO (XI XH)))))) :: ((Npos (XI (XO (XI (XO (XI XH)))))) :: ((Npos (XI (XO
+    (XI (XI (XO (XI XH))))))) :: [])))))
+| BrightCyan ->
+  (Npos (XI (XI (XO (XI XH))))) :: ((Npos (XI (XI (XO (XI (XI (XO
+    XH))))))) :: ((Npos (XI (XO (XO (XO (XI XH)))))) :: ((Npos (XO (XO (XO
+    (XO (XI XH)))))) :: ((Npos (XO (XI (XI (XO (XI XH)))))) :: ((Npos (XI (XO
+    (XI (XI (XO (XI XH))))))) :: [])))))
+| BrightWhite ->
+  (Npos (XI (XI (XO (XI XH))))) :: ((Npos (XI (XI (XO (XI (XI (XO
+    XH))))))) :: ((Npos (XI (XO (XO (XO (XI XH)))))) :: ((Npos (XO (XO (XO
+    (XO (XI XH)))))) :: ((Npos (XI (XI (XI (XO (XI XH)))))) :: ((Npos (XI (XO
+    (XI (XI (XO (XI XH))))))) :: [])))))
+
+(** val ansi_bright_on : ansi_color -> ansi_color **)
+
+let ansi_bright_on = function
+| Black -> BrightBlack
+| Red -> BrightRed
+| Green -> BrightGreen
+| Yellow -> BrightYellow
+| Blue -> BrightBlue
+| Magenta -> BrightMagenta
+| Cyan -> BrightCyan
+| White -> BrightWhite
+| x -> x
+
+(** val ansi_bright_off : ansi_color -> ansi_color **)
+
+let ansi_bright_off = function
+| BrightBlack -> Black
+| BrightRed -> Red
+| BrightGreen -> Green
+| BrightYellow -> Yellow
+| BrightBlue -> Blue
+| BrightMagenta -> Magenta
+| BrightCyan -> Cyan
+| BrightWhite -> White
+| x -> x
+
+(** val ansi_is_bright : ansi_color -> bool **)
+
+let ansi_is_bright = function
+| Black -> false
+| Red -> false
+| Green -> false
+| Yellow -> false
+| Blue -> false
+| Magenta -> false
+| Cyan -> false
+| White -> false
+| _ -> true
+
+(** val ansi256_into_ansi : n -> ansi_color option **)
+
+let ansi256_into_ansi = function
+| N0 -> Some Black
+| Npos p ->
+  (match p with
+   | XI p0 ->
+     (match p0 with
+      | XI p1 ->
+        (match p1 with
+         | XI p2 -> (match p2 with
+                     | XH -> Some BrightWhite
+                     | _ -> None)
+         | XO p2 -> (match p2 with
+                     | XH -> Some BrightYellow
+                     | _ -> None)
+         | XH -> Some White)
+      | XO p1 ->
+        (match p1 with
+         | XI p2 -> (match p2 with
+                     | XH -> Some BrightMagenta
+                     | _ -> None)
+         | XO p2 -> (match p2 with
+                     | XH -> Some BrightRed
+                     | _ -> None)
+         | XH -> Some Magenta)
+      | XH -> Some Yellow)
+   | XO p0 ->
+     (match p0 with
+      | XI p1 ->
+        (match p1 with
+         | XI p2 -> (match p2 with
+                     | XH -> Some BrightCyan
+                     | _ -> None)
+         | XO p2 -> (match p2 with
+                     | XH -> Some BrightGreen
+                     | _ -> None)
+         | XH -> Some Cyan)
+      | XO p1 ->
+        (match p1 with
+         | XI p2 -> (match p2 with
+                     | XH -> Some BrightBlue
+                     | _ -> None)
+         | XO p2 -> (match p2 with
+                     | XH -> Some BrightBlack
+                     | _ -> None)
+         | XH -> Some Blue)
+      | XH -> Some Green)
+   | XH -> Some Red)
+
+(** val ansi256_from_ansi : ansi_color -> n **)
+
+let ansi256_from_ansi = function
+| Black -> N0
+| Red -> Npos XH
+| Green -> Npos (XO XH)
+| Yellow -> Npos (XI XH)
+| Blue -> Npos (XO (XO XH))
+| Magenta -> Npos (XI (XO XH))
+| Cyan -> Npos (XO (XI XH))
+| White -> Npos (XI (XI XH))
+| BrightBlack -> Npos (XO (XO (XO XH)))
+| BrightRed -> Npos (XI (XO (XO XH)))
+| BrightGreen -> Npos (XO (XI (XO XH)))
+| BrightYellow -> Npos (XI (XI (XO XH)))
+| BrightBlue -> Npos (XO (XO (XI XH)))
+| BrightMagenta -> Npos (XI (XO (XI XH)))
+| BrightCyan -> Npos (XO (XI (XI XH)))
+| BrightWhite -> Npos (XI (XI (XI XH)))
+
+type conv_method =
+| Conv_bold
+| Conv_dimmed
+| Conv_italic
+| Conv_underline
+| Conv_blink
+| Conv_invert
+| Conv_hidden
+| Conv_strikethrough
+
+(** val all_conv : conv_method list **)
+
+let all_conv =
+  Conv_bold :: (Conv_dimmed :: (Conv_italic :: (Conv_underline :: (Conv_blink :: (Conv_invert :: (Conv_hidden :: (Conv_strikethrough :: [])))))))
+
+(** val conv_name : conv_method -> n list **)
+
+let conv_name = function
+| Conv_bold ->
+  (Npos (XO (XI (XO (XO (XO (XI XH))))))) :: ((Npos (XI (XI (XI (XI (XO (XI
+    XH))))))) :: ((Npos (XO (XO (XI (XI (XO (XI XH))))))) :: ((Npos (XO (XO
+    (XI (XO (XO (XI XH))))))) :: [])))
+| Conv_dimmed ->
+  (Npos (XO (XO (XI (XO (XO (XI XH))))))) :: ((Npos (XI (XO (XO (XI (XO (XI
+    XH))))))) :: ((Npos (XI (XO (XI (XI (XO (XI XH))))))) :: ((Npos (XI (XO
+    (XI (XI (XO (XI XH))))))) :: ((Npos (XI (XO (XI (XO (XO (XI
+    XH))))))) :: ((Npos (XO (XO (XI (XO (XO (XI XH))))))) :: [])))))
+| Conv_italic ->
+  (Npos (XI (XO (XO (XI (XO (XI XH))))))) :: ((Npos (XO (XO (XI (XO (XI (XI
+    XH))))))) :: ((Npos (XI (XO (XO (XO (XO (XI XH))))))) :: ((Npos (XO (XO
+    (XI (XI (XO (XI XH))))))) :: ((Npos (XI (XO (XO (XI (XO (XI
+    XH))))))) :: ((Npos (XI (XI (XO (XO (XO (XI XH))))))) :: [])))))
+| Conv_underline ->
+  (Npos (XI (XO (XI (XO (XI (XI XH))))))) :: ((Npos (XO (XI (XI (XI (XO (XI
+    XH))))))) :: ((Npos (XO (XO (XI (XO (XO (XI XH))))))) :: ((Npos (XI (XO
+    (XI (XO (XO (XI XH))))))) :: ((Npos (XO (XI (XO (XO (XI (XI
+    XH))))))) :: ((Npos (XO (XO (XI (XI (XO (XI XH))))))) :: ((Npos (XI (XO
+    (XO (XI (XO (XI XH))))))) :: ((Npos (XO (XI (XI (XI (XO (XI
+    XH))))))) :: ((Npos (XI (XO (XI (XO (XO (XI XH))))))) :: []))))))))
+| Conv_blink ->
+  (Npos (XO (XI (XO (XO (XO (XI XH))))))) :: ((Npos (XO (XO (XI (XI (XO (XI
+    XH))))))) :: ((Npos (XI (XO (XO (XI (XO (XI XH))))))) :: ((Npos (XO (XI
+    (XI (XI (XO (XI XH))))))) :: ((Npos (XI (XI (XO (XI (XO (XI
+    XH))))))) :: []))))
+| Conv_invert ->
+  (Npos (XI (XO (XO (XI (XO (XI XH))))))) :: ((Npos (XO (XI (XI (XI (XO (XI
+    XH))))))) :: ((Npos (XO (XI (XI (XO (XI (XI XH))))))) :: ((Npos (XI (XO
+    (XI (XO (XO (XI XH))))))) :: ((Npos (XO (XI (XO (XO (XI (XI
+    XH))))))) :: ((Npos (XO (XO (XI (XO (XI (XI XH))))))) :: [])))))
+| Conv_hidden ->
+  (Npos (XO (XO (XO (XI (XO (XI XH))))))) :: ((Npos (XI (XO (XO (XI (XO (XI
+    XH))))))) :: ((Npos (XO (XO (XI (XO (XO (XI XH))))))) :: ((Npos (XO (XO
+    (XI (XO (XO (XI XH))))))) :: ((Npos (XI (XO (XI (XO (XO (XI
+    XH))))))) :: ((Npos (XO (XI (XI (XI (XO (XI XH))))))) :: [])))))
+| Conv_strikethrough ->
+  (Npos (XI (XI (XO (XO (XI (XI XH))))))) :: ((Npos (XO (XO (XI (XO (XI (XI
+    XH))))))) :: ((Npos (XO (XI (XO (XO (XI (XI XH))))))) :: ((Npos (XI (XO
+    (XO (XI (XO (XI XH))))))) :: ((Npos (XI (XI (XO (XI (XO (XI
+    XH))))))) :: ((Npos (XI (XO (XI (XO (XO (XI XH))))))) :: ((Npos (XO (XO
+    (XI (XO (XI (XI XH))))))) :: ((Npos (XO (XO (XO (XI (XO (XI
+    XH))))))) :: ((Npos (XO (XI (XO (XO (XI (XI XH))))))) :: ((Npos (XI (XI
+    (XI (XI (XO (XI XH))))))) :: ((Npos (XI (XO (XI (XO (XI (XI
+    XH))))))) :: ((Npos (XI (XI (XI (XO (XO (XI XH))))))) :: ((Npos (XO (XO
+    (XO (XI (XO (XI XH))))))) :: []))))))))))))
+
+(** val conv_effect : conv_method -> n **)
+
+let conv_effect = function
+| Conv_bold -> eff_bold
+| Conv_dimmed -> eff_dimmed
+| Conv_italic -> eff_italic
+| Conv_underline -> eff_underline
+| Conv_blink -> eff_blink
+| Conv_invert -> eff_invert
+| Conv_hidden -> eff_hidden
+| Conv_strikethrough -> eff_strikethrough
+
+(** val nEFF : nat **)
+
+let nEFF =
+  S (S (S (S (S (S (S (S (S (S (S (S O)))))))))))
+
+(** val idxs : n list **)
+
+let idxs =
+  map N.of_nat (seq O nEFF)
+
+(** val mem : n -> n -> bool **)
+
+let mem =
+  N.testbit
+
+(** val singleton : n -> n **)
+
+let singleton i =
+  N.pow (Npos (XO XH)) i
+
+(** val members : n -> n list **)
+
+let members s =
+  filter (mem s) idxs
+
+(** val chi : n -> bool list **)
+
+let chi s =
+  map (mem s) idxs
+
+(** val of_chi : bool list -> n **)
+
+let rec of_chi = function
+| [] -> N0
+| b :: t -> N.add (N.b2n b) (N.mul (Npos (XO XH)) (of_chi t))
+
+(** val zipb :
+    (bool -> bool -> bool) -> bool list -> bool list -> bool list **)
+
+let rec zipb f x y =
+  match x with
+  | [] -> []
+  | a :: x' -> (match y with
+                | [] -> []
+                | b :: y' -> (f a b) :: (zipb f x' y'))
+
+(** val v_union : bool list -> bool list -> bool list **)
+
+let v_union =
+  zipb (||)
+
+(** val v_diff : bool list -> bool list -> bool list **)
+
+let v_diff =
+  zipb (fun a b -> (&&) a (negb b))
+
+(** val v_subset : bool list -> bool list -> bool **)
+
+let v_subset x y =
+  forallb (fun b -> b) (zipb implb x y)
+
+(** val v_empty : bool list -> bool **)
+
+let v_empty x =
+  forallb negb x
+
+(** val v_members : bool list -> n list **)
+
+let v_members x =
+  map fst (filter snd (combine idxs x))
+
+(** val sp_is_plain : n -> bool **)
+
+let sp_is_plain a =
+  v_empty (chi a)
+
+(** val sp_iter_chi : bool list -> n list **)
+
+let sp_iter_chi x =
+  map singleton (v_members x)
+
+(** val effect_names : n list list **)
+
+let effect_names =
+  ((Npos (XO (XI (XO (XO (XO (XO XH))))))) :: ((Npos (XI (XI (XI (XI (XO (XO
+    XH))))))) :: ((Npos (XO (XO (XI (XI (XO (XO XH))))))) :: ((Npos (XO (XO
+    (XI (XO (XO (XO XH))))))) :: [])))) :: (((Npos (XO (XO (XI (XO (XO (XO
+    XH))))))) :: ((Npos (XI (XO (XO (XI (XO (XO XH))))))) :: ((Npos (XI (XO
+    (XI (XI (XO (XO XH))))))) :: ((Npos (XI (XO (XI (XI (XO (XO
+    XH))))))) :: ((Npos (XI (XO (XI (XO (XO (XO XH))))))) :: ((Npos (XO (XO
+    (XI (XO (XO (XO XH))))))) :: [])))))) :: (((Npos (XI (XO (XO (XI (XO (XO
+    XH))))))) :: ((Npos (XO (XO (XI (XO (XI (XO XH))))))) :: ((Npos (XI (XO
+    (XO (XO (XO (XO XH))))))) :: ((Npos (XO (XO (XI (XI (XO (XO
+    XH))))))) :: ((Npos (XI (XO (XO (XI (XO (XO XH))))))) :: ((Npos (XI (XI
+    (XO (XO (XO (XO XH))))))) :: [])))))) :: (((Npos (XI (XO (XI (XO (XI (XO
+    XH))))))) :: ((Npos (XO (XI (XI (XI (XO (XO XH))))))) :: ((Npos (XO (XO
+    (XI (XO (XO (XO XH))))))) :: ((Npos (XI (XO (XI (XO (XO (XO
+    XH))))))) :: ((Npos (XO (XI (XO (XO (XI (XO XH))))))) :: ((Npos (XO (XO
+    (XI (XI (XO (XO XH))))))) :: ((Npos (XI (XO (XO (XI (XO (XO
+    XH))))))) :: ((Npos (XO (XI (XI (XI (XO (XO XH))))))) :: ((Npos (XI (XO
+    (XI (XO (XO (XO XH))))))) :: []))))))))) :: (((Npos (XO (XO (XI (XO (XO
+    (XO XH))))))) :: ((Npos (XI (XI (XI (XI (XO (XO XH))))))) :: ((Npos (XI
+    (XO (XI (XO (XI (XO XH))))))) :: ((Npos (XO (XI (XO (XO (XO (XO
+    XH))))))) :: ((Npos (XO (XO (XI (XI (XO (XO XH))))))) :: ((Npos (XI (XO
+    (XI (XO (XO (XO XH))))))) :: ((Npos (XI (XI (XI (XI (XI (XO
+    XH))))))) :: ((Npos (XI (XO (XI (XO (XI (XO XH))))))) :: ((Npos (XO (XI
+    (XI (XI (XO (XO XH))))))) :: ((Npos (XO (XO (XI (XO (XO (XO
+    XH))))))) :: ((Npos (XI (XO (XI (XO (XO (XO XH))))))) :: ((Npos (XO (XI
+    (XO (XO (XI (XO XH))))))) :: ((Npos (XO (XO (XI (XI (XO (XO
+    XH))))))) :: ((Npos (XI (XO (XO (XI (XO (XO XH))))))) :: ((Npos (XO (XI
+    (XI (XI (XO (XO XH))))))) :: ((Npos (XI (XO (XI (XO (XO (XO
+    XH))))))) :: [])))))))))))))))) :: (((Npos (XI (XI (XO (XO (XO (XO
+    XH))))))) :: ((Npos (XI (XO (XI (XO (XI (XO XH))))))) :: ((Npos (XO (XI
+    (XO (XO (XI (XO XH))))))) :: ((Npos (XO (XO (XI (XI (XO (XO
+    XH))))))) :: ((Npos (XI (XO (XO (XI (XI (XO XH))))))) :: ((Npos (XI (XI
+    (XI (XI (XI (XO XH))))))) :: ((Npos (XI (XO (XI (XO (XI (XO
+    XH))))))) :: ((Npos (XO (XI (XI (XI (XO (XO XH))))))) :: ((Npos (XO (XO
+    (XI (XO (XO (XO XH))))))) :: ((Npos (XI (XO (XI (XO (XO (XO
+    XH))))))) :: ((Npos (XO (XI (XO (XO (XI (XO XH))))))) :: ((Npos (XO (XO
+    (XI (XI (XO (XO XH))))))) :: ((Npos (XI (XO (XO (XI (XO (XO
+    XH))))))) :: ((Npos (XO (XI (XI (XI (XO (XO XH))))))) :: ((Npos (XI (XO
+    (XI (XO (XO (XO XH))))))) :: []))))))))))))))) :: (((Npos (XO (XO (XI (XO
+    (XO (XO XH))))))) :: ((Npos (XI (XI (XI (XI (XO (XO XH))))))) :: ((Npos
+    (XO (XO (XI (XO (XI (XO XH))))))) :: ((Npos (XO (XO (XI (XO (XI (XO
+    XH))))))) :: ((Npos (XI (XO (XI (XO (XO (XO XH))))))) :: ((Npos (XO (XO
+    (XI (XO (XO (XO XH))))))) :: ((Npos (XI (XI (XI (XI (XI (XO
+    XH))))))) :: ((Npos (XI (XO (XI (XO (XI (XO XH))))))) :: ((Npos (XO (XI
+    (XI (XI (XO (XO XH))))))) :: ((Npos (XO (XO (XI (XO (XO (XO
+    XH))))))) :: ((Npos (XI (XO (XI (XO (XO (XO XH))))))) :: ((Npos (XO (XI
+    (XO (XO (XI (XO XH))))))) :: ((Npos (XO (XO (XI (XI (XO (XO
+    XH))))))) :: ((Npos (XI (XO (XO (XI (XO (XO XH))))))) :: ((Npos (XO (XI
+    (XI (XI (XO (XO XH))))))) :: ((Npos (XI (XO (XI (XO (XO (XO
+    XH))))))) :: [])))))))))))))))) :: (((Npos (XO (XO (XI (XO (XO (XO
+    XH))))))) :: ((Npos (XI (XO (XO (XO (XO (XO XH))))))) :: ((Npos (XI (XI
+    (XO (XO (XI (XO XH))))))) :: ((Npos (XO (XO (XO (XI (XO (XO
+    XH))))))) :: ((Npos (XI (XO (XI (XO (XO (XO XH))))))) :: ((Npos (XO (XO
+    (XI (XO (XO (XO XH))))))) :: ((Npos (XI (XI (XI (XI (XI (XO
+    XH))))))) :: ((Npos (XI (XO (XI (XO (XI (XO XH))))))) :: ((Npos (XO (XI
+    (XI (XI (XO (XO XH))))))) :: ((Npos (XO (XO (XI (XO (XO (XO
+    XH))))))) :: ((Npos (XI (XO (XI (XO (XO (XO XH))))))) :: ((Npos (XO (XI
+    (XO (XO (XI (XO XH))))))) :: ((Npos (XO (XO (XI (XI (XO (XO
+    XH))))))) :: ((Npos (XI (XO (XO (XI (XO (XO XH))))))) :: ((Npos (XO (XI
+    (XI (XI (XO (XO XH))))))) :: ((Npos (XI (XO (XI (XO (XO (XO
+    XH))))))) :: [])))))))))))))))) :: (((Npos (XO (XI (XO (XO (XO (XO
+    XH))))))) :: ((Npos (XO (XO (XI (XI (XO (XO XH))))))) :: ((Npos (XI (XO
+    (XO (XI (XO (XO XH))))))) :: ((Npos (XO (XI (XI (XI (XO (XO
+    XH))))))) :: ((Npos (XI (XI (XO (XI (XO (XO
+    XH))))))) :: []))))) :: (((Npos (XI (XO (XO (XI (XO (XO
+    XH))))))) :: ((Npos (XO (XI (XI (XI (XO (XO XH))))))) :: ((Npos (XO (XI
+    (XI (XO (XI (XO XH))))))) :: ((Npos (XI (XO (XI (XO (XO (XO
+    XH))))))) :: ((Npos (XO (XI (XO (XO (XI (XO XH))))))) :: ((Npos (XO (XO
+    (XI (XO (XI (XO XH))))))) :: [])))))) :: (((Npos (XO (XO (XO (XI (XO (XO
+    XH))))))) :: ((Npos (XI (XO (XO (XI (XO (XO XH))))))) :: ((Npos (XO (XO
+    (XI (XO (XO (XO XH))))))) :: ((Npos (XO (XO (XI (XO (XO (XO
+    XH))))))) :: ((Npos (XI (XO (XI (XO (XO (XO XH))))))) :: ((Npos (XO (XI
+    (XI (XI (XO (XO XH))))))) :: [])))))) :: (((Npos (XI (XI (XO (XO (XI (XO
+    XH))))))) :: ((Npos (XO (XO (XI (XO (XI (XO XH))))))) :: ((Npos (XO (XI
+    (XO (XO (XI (XO XH))))))) :: ((Npos (XI (XO (XO (XI (XO (XO
+    XH))))))) :: ((Npos (XI (XI (XO (XI (XO (XO XH))))))) :: ((Npos (XI (XO
+    (XI (XO (XO (XO XH))))))) :: ((Npos (XO (XO (XI (XO (XI (XO
+    XH))))))) :: ((Npos (XO (XO (XO (XI (XO (XO XH))))))) :: ((Npos (XO (XI
+    (XO (XO (XI (XO XH))))))) :: ((Npos (XI (XI (XI (XI (XO (XO
+    XH))))))) :: ((Npos (XI (XO (XI (XO (XI (XO XH))))))) :: ((Npos (XI (XI
+    (XI (XO (XO (XO XH))))))) :: ((Npos (XO (XO (XO (XI (XO (XO
+    XH))))))) :: []))))))))))))) :: [])))))))))))
+
+(** val effect_name : n -> n list **)
+
+let effect_name i =
+  nth (N.to_nat i) effect_names []
+
+(** val join : n list -> n list list -> n list **)
+
+let rec join sep = function
+| [] -> []
+| x :: t -> (match t with
+             | [] -> x
+             | _ :: _ -> app x (app sep (join sep t)))
+
+(** val txt_open : n list **)
+
+let txt_open =
+  (Npos (XI (XO (XI (XO (XO (XO XH))))))) :: ((Npos (XO (XI (XI (XO (XO (XI
+    XH))))))) :: ((Npos (XO (XI (XI (XO (XO (XI XH))))))) :: ((Npos (XI (XO
+    (XI (XO (XO (XI XH))))))) :: ((Npos (XI (XI (XO (XO (XO (XI
+    XH))))))) :: ((Npos (XO (XO (XI (XO (XI (XI XH))))))) :: ((Npos (XI (XI
+    (XO (XO (XI (XI XH))))))) :: ((Npos (XO (XO (XO (XI (XO
+    XH)))))) :: [])))))))
+
+(** val txt_bar : n list **)
+
+let txt_bar =
+  (Npos (XO (XO (XO (XO (XO XH)))))) :: ((Npos (XO (XO (XI (XI (XI (XI
+    XH))))))) :: ((Npos (XO (XO (XO (XO (XO XH)))))) :: []))
+
+(** val txt_close : n list **)
+
+let txt_close =
+  (Npos (XI (XO (XO (XI (XO XH)))))) :: []
+
+(** val sp_debug : n -> n list **)
+
+let sp_debug a =
+  app txt_open (app (join txt_bar (map effect_name (members a))) txt_close)
+
+(** val upper : n -> n **)
+
+let upper b =
+  if (&&) (N.leb (Npos (XI (XO (XO (XO (XO (XI XH))))))) b)
+       (N.leb b (Npos (XO (XI (XO (XI (XI (XI XH))))))))
+  then N.sub b (Npos (XO (XO (XO (XO (XO XH))))))
+  else b
+
+(** val bytes_eqb : n list -> n list -> bool **)
+
+let rec bytes_eqb x y =
+  match x with
+  | [] -> (match y with
+           | [] -> true
+           | _ :: _ -> false)
+  | a :: x' ->
+    (match y with
+     | [] -> false
+     | b :: y' -> (&&) (N.eqb a b) (bytes_eqb x' y'))
+
+(** val index_of : n list -> n list list -> n -> n option **)
+
+let rec index_of nm l k =
+  match l with
+  | [] -> None
+  | x :: t ->
+    if bytes_eqb nm x then Some k else index_of nm t (N.add k (Npos XH))
+
+(** val conv_names : n list list **)
+
+let conv_names =
+  ((Npos (XO (XI (XO (XO (XO (XI XH))))))) :: ((Npos (XI (XI (XI (XI (XO (XI
+    XH))))))) :: ((Npos (XO (XO (XI (XI (XO (XI XH))))))) :: ((Npos (XO (XO
+    (XI (XO (XO (XI XH))))))) :: [])))) :: (((Npos (XO (XO (XI (XO (XO (XI
+    XH))))))) :: ((Npos (XI (XO (XO (XI (XO (XI XH))))))) :: ((Npos (XI (XO
+    (XI (XI (XO (XI XH))))))) :: ((Npos (XI (XO (XI (XI (XO (XI
+    XH))))))) :: ((Npos (XI (XO (XI (XO (XO (XI XH))))))) :: ((Npos (XO (XO
+    (XI (XO (XO (XI XH))))))) :: [])))))) :: (((Npos (XI (XO (XO (XI (XO (XI
+    XH))))))) :: ((Npos (XO (XO (XI (XO (XI (XI XH))))))) :: ((Npos (XI (XO
+    (XO (XO (XO (XI XH))))))) :: ((Npos (XO (XO (XI (XI (XO (XI
+    XH))))))) :: ((Npos (XI (XO (XO (XI (XO (XI XH))))))) :: ((Npos (XI (XI
+    (XO (XO (XO (XI XH))))))) :: [])))))) :: (((Npos (XI (XO (XI (XO (XI (XI
+    XH))))))) :: ((Npos (XO (XI (XI (XI (XO (XI XH))))))) :: ((Npos (XO (XO
+    (XI (XO (XO (XI XH))))))) :: ((Npos (XI (XO (XI (XO (XO (XI
+    XH))))))) :: ((Npos (XO (XI (XO (XO (XI (XI XH))))))) :: ((Npos (XO (XO
+    (XI (XI (XO (XI XH))))))) :: ((Npos (XI (XO (XO (XI (XO (XI
+    XH))))))) :: ((Npos (XO (XI (XI (XI (XO (XI XH))))))) :: ((Npos (XI (XO
+    (XI (XO (XO (XI XH))))))) :: []))))))))) :: (((Npos (XO (XI (XO (XO (XO
+    (XI XH))))))) :: ((Npos (XO (XO (XI (XI (XO (XI XH))))))) :: ((Npos (XI
+    (XO (XO (XI (XO (XI XH))))))) :: ((Npos (XO (XI (XI (XI (XO (XI
+    XH))))))) :: ((Npos (XI (XI (XO (XI (XO (XI
+    XH))))))) :: []))))) :: (((Npos (XI (XO (XO (XI (XO (XI
+    XH))))))) :: ((Npos (XO (XI (XI (XI (XO (XI XH))))))) :: ((Npos (XO (XI
+    (XI (XO (XI (XI XH))))))) :: ((Npos (XI (XO (XI (XO (XO (XI
+    XH))))))) :: ((Npos (XO (XI (XO (XO (XI (XI XH))))))) :: ((Npos (XO (XO
+    (XI (XO (XI (XI XH))))))) :: [])))))) :: (((Npos (XO (XO (XO (XI (XO (XI
+    XH))))))) :: ((Npos (XI (XO (XO (XI (XO (XI XH))))))) :: ((Npos (XO (XO
+    (XI (XO (XO (XI XH))))))) :: ((Npos (XO (XO (XI (XO (XO (XI
+    XH))))))) :: ((Npos (XI (XO (XI (XO (XO (XI XH))))))) :: ((Npos (XO (XI
+    (XI (XI (XO (XI XH))))))) :: [])))))) :: (((Npos (XI (XI (XO (XO (XI (XI
+    XH))))))) :: ((Npos (XO (XO (XI (XO (XI (XI XH))))))) :: ((Npos (XO (XI
+    (XO (XO (XI (XI XH))))))) :: ((Npos (XI (XO (XO (XI (XO (XI
+    XH))))))) :: ((Npos (XI (XI (XO (XI (XO (XI XH))))))) :: ((Npos (XI (XO
+    (XI (XO (XO (XI XH))))))) :: ((Npos (XO (XO (XI (XO (XI (XI
+    XH))))))) :: ((Npos (XO (XO (XO (XI (XO (XI XH))))))) :: ((Npos (XO (XI
+    (XO (XO (XI (XI XH))))))) :: ((Npos (XI (XI (XI (XI (XO (XI
+    XH))))))) :: ((Npos (XI (XO (XI (XO (XI (XI XH))))))) :: ((Npos (XI (XI
+    (XI (XO (XO (XI XH))))))) :: ((Npos (XO (XO (XO (XI (XO (XI
+    XH))))))) :: []))))))))))))) :: [])))))))
+
+(** val sp_named_effect : n list -> n **)
+
+let sp_named_effect nm =
+  match index_of (map upper nm) effect_names N0 with
+  | Some k -> singleton k
+  | None -> N0
+
+(** val hue : n -> n **)
+
+let hue c =
+  N.modulo c (Npos (XO (XO (XO XH))))
+
+(** val is_bright_ix : n -> bool **)
+
+let is_bright_ix c =
+  N.leb (Npos (XO (XO (XO XH)))) c
+
+(** val with_bright : n -> bool -> n **)
+
+let with_bright c b =
+  N.add (hue c) (if b then Npos (XO (XO (XO XH))) else N0)
+
+(** val sp_into_ansi : n -> n option **)
+
+let sp_into_ansi n0 =
+  if N.ltb n0 (Npos (XO (XO (XO (XO XH))))) then Some n0 else None
+
+(** val sp_from_ansi : n -> n **)
+
+let sp_from_ansi c =
+  c
+
+type 'c sstyle = { sp_fg : 'c option; sp_bg : 'c option; sp_ul : 'c option;
+                   sp_eff : n }
+
+(** val sp_eff : 'a1 sstyle -> n **)
+
+let sp_eff s =
+  s.sp_eff
+
+type cfield =
+| FFg
+| FBg
+| FUl
+
+(** val sp_get : cfield -> 'a1 sstyle -> 'a1 option **)
+
+let sp_get f s =
+  match f with
+  | FFg -> s.sp_fg
+  | FBg -> s.sp_bg
+  | FUl -> s.sp_ul
+
+(** val sp_setc : cfield -> 'a1 option -> 'a1 sstyle -> 'a1 sstyle **)
+
+let sp_setc f v s =
+  match f with
+  | FFg -> { sp_fg = v; sp_bg = s.sp_bg; sp_ul = s.sp_ul; sp_eff = s.sp_eff }
+  | FBg -> { sp_fg = s.sp_fg; sp_bg = v; sp_ul = s.sp_ul; sp_eff = s.sp_eff }
+  | FUl -> { sp_fg = s.sp_fg; sp_bg = s.sp_bg; sp_ul = v; sp_eff = s.sp_eff }
+
+(** val sp_set_eff : n -> 'a1 sstyle -> 'a1 sstyle **)
+
+let sp_set_eff e s =
+  { sp_fg = s.sp_fg; sp_bg = s.sp_bg; sp_ul = s.sp_ul; sp_eff = e }
+
+(** val sp_plain : 'a1 sstyle **)
+
+let sp_plain =
+  { sp_fg = None; sp_bg = None; sp_ul = None; sp_eff = N0 }
+
+(** val is_none : 'a1 option -> bool **)
+
+let is_none = function
+| Some _ -> false
+| None -> true
+
+(** val sp_no_colours : 'a1 sstyle -> bool **)
+
+let sp_no_colours s =
+  (&&) ((&&) (is_none s.sp_fg) (is_none s.sp_bg)) (is_none s.sp_ul)
+
+(** val sp_eq_effects : 'a1 sstyle -> n -> bool **)
+
+let sp_eq_effects s e =
+  (&&) (sp_no_colours s) (N.eqb s.sp_eff e)
+
+(** val sp_style_is_plain : 'a1 sstyle -> bool **)
+
+let sp_style_is_plain s =
+  (&&) (sp_no_colours s) (sp_is_plain s.sp_eff)
+
+(** val e_new : n **)
+
+let e_new =
+  effect_plain
+
+(** val e_is_plain : n -> bool **)
+
+let e_is_plain e =
+  N.eqb e effect_plain
+
+(** val e_contains : n -> n -> bool **)
+
+let e_contains s o =
+  N.eqb (N.coq_land o s) o
+
+(** val e_insert : n -> n -> n **)
+
+let e_insert =
+  N.coq_lor
+
+(** val u16_not : n -> n **)
+
+let u16_not x =
+  N.lnot x (Npos (XO (XO (XO (XO XH)))))
+
+(** val e_remove : n -> n -> n **)
+
+let e_remove s o =
+  N.coq_land s (u16_not o)
+
+(** val e_clear : n -> n **)
+
+let e_clear _ =
+  e_new
+
+(** val e_set : n -> n -> bool -> n **)
+
+let e_set s o = function
+| true -> e_insert s o
+| false -> e_remove s o
+
+(** val e_bitor : n -> n -> n **)
+
+let e_bitor =
+  e_insert
+
+(** val e_bitor_assign : n -> n -> n **)
+
+let e_bitor_assign =
+  e_insert
+
+(** val e_sub : n -> n -> n **)
+
+let e_sub =
+  e_remove
+
+(** val e_sub_assign : n -> n -> n **)
+
+let e_sub_assign =
+  e_remove
+
+(** val shl1_u16 : n -> n option **)
+
+let shl1_u16 i =
+  if N.ltb i (Npos (XO (XO (XO (XO XH)))))
+  then Some (N.shiftl (Npos XH) i)
+  else None
+
+(** val iter_loop : (n -> n -> 'a1) -> nat -> n -> n -> 'a1 list option **)
+
+let rec iter_loop item fuel index e =
+  match fuel with
+  | O -> Some []
+  | S k ->
+    (match shl1_u16 index with
+     | Some effect ->
+       (match iter_loop item k (N.add index (Npos XH)) e with
+        | Some rest ->
+          Some
+            (if e_contains e effect then (item index effect) :: rest else rest)
+        | None -> None)
+     | None -> None)
+
+(** val e_iter : n -> n list option **)
+
+let e_iter e =
+  iter_loop (fun _ effect -> effect) (length metadata) N0 e
+
+(** val e_index_iter : n -> n list option **)
+
+let e_index_iter e =
+  iter_loop (fun index _ -> index) (length metadata) N0 e
+
+(** val str_effects_open : n list **)
+
+let str_effects_open =
+  (Npos (XI (XO (XI (XO (XO (XO XH))))))) :: ((Npos (XO (XI (XI (XO (XO (XI
+    XH))))))) :: ((Npos (XO (XI (XI (XO (XO (XI XH))))))) :: ((Npos (XI (XO
+    (XI (XO (XO (XI XH))))))) :: ((Npos (XI (XI (XO (XO (XO (XI
+    XH))))))) :: ((Npos (XO (XO (XI (XO (XI (XI XH))))))) :: ((Npos (XI (XI
+    (XO (XO (XI (XI XH))))))) :: ((Npos (XO (XO (XO (XI (XO
+    XH)))))) :: [])))))))
+
+(** val str_bar : n list **)
+
+let str_bar =
+  (Npos (XO (XO (XO (XO (XO XH)))))) :: ((Npos (XO (XO (XI (XI (XI (XI
+    XH))))))) :: ((Npos (XO (XO (XO (XO (XO XH)))))) :: []))
+
+(** val str_close : n list **)
+
+let str_close =
+  (Npos (XI (XO (XO (XI (XO XH)))))) :: []
+
+(** val debug_body : nat -> n list -> n list option **)
+
+let rec debug_body i = function
+| [] -> Some []
+| index :: t ->
+  (match aget metadata index with
+   | Some md ->
+     (match debug_body (S i) t with
+      | Some rest ->
+        Some (app (match i with
+                   | O -> []
+                   | S _ -> str_bar) (app (fst md) rest))
+      | None -> None)
+   | None -> None)
+
+(** val e_debug : n -> n list option **)
+
+let e_debug e =
+  match e_index_iter e with
+  | Some l ->
+    (match debug_body O l with
+     | Some body -> Some (app str_effects_open (app body str_close))
+     | None -> None)
+  | None -> None
+
+(** val e_of_mask_from : n -> (n list * n) list -> n -> n **)
+
+let rec e_of_mask_from j cs m =
+  match cs with
+  | [] -> e_new
+  | p :: t ->
+    let (_, k) = p in
+    let r = e_of_mask_from (N.add j (Npos XH)) t m in
+    if N.testbit m j then e_insert r (N.shiftl (Npos XH) k) else r
+
+(** val e_of_mask : n -> n **)
+
+let e_of_mask m =
+  e_of_mask_from N0 effect_consts m
+
+type color =
+| CoAnsi of ansi_color
+| CoAnsi256 of n
+| CoRgb of n * n * n
+
+(** val ansi_bright : ansi_color -> bool -> ansi_color **)
+
+let ansi_bright c = function
+| true -> ansi_bright_on c
+| false -> ansi_bright_off c
+
+(** val ansi_eqb : ansi_color -> ansi_color -> bool **)
+
+let ansi_eqb a b =
+  N.eqb (ansi_disc a) (ansi_disc b)
+
+(** val color_eqb : color -> color -> bool **)
+
+let color_eqb a b =
+  match a with
+  | CoAnsi x -> (match b with
+                 | CoAnsi y -> ansi_eqb x y
+                 | _ -> false)
+  | CoAnsi256 x -> (match b with
+                    | CoAnsi256 y -> N.eqb x y
+                    | _ -> false)
+  | CoRgb (r, g, b0) ->
+    (match b with
+     | CoRgb (r', g', b') ->
+       (&&) ((&&) (N.eqb r r') (N.eqb g g')) (N.eqb b0 b')
+     | _ -> false)
+
+(** val ocolor_eqb : color option -> color option -> bool **)
+
+let ocolor_eqb a b =
+  match a with
+  | Some x -> (match b with
+               | Some y -> color_eqb x y
+               | None -> false)
+  | None -> (match b with
+             | Some _ -> false
+             | None -> true)
+
+(** val ansi256_from : ansi_color -> n **)
+
+let ansi256_from =
+  ansi256_from_ansi
+
+(** val color_repr : color -> n * (n * (n * n)) **)
+
+let color_repr = function
+| CoAnsi a -> (N0, ((ansi_disc a), (N0, N0)))
+| CoAnsi256 n0 -> ((Npos XH), (n0, (N0, N0)))
+| CoRgb (r, g, b) -> ((Npos (XO XH)), (r, (g, b)))
+
+(** val color_of_repr : n -> n -> n -> n -> color option **)
+
+let color_of_repr tag x y z =
+  match tag with
+  | N0 ->
+    (match nth_error all_ansi (N.to_nat x) with
+     | Some a -> Some (CoAnsi a)
+     | None -> None)
+  | Npos p ->
+    (match p with
+     | XI _ -> None
+     | XO p0 -> (match p0 with
+                 | XH -> Some (CoRgb (x, y, z))
+                 | _ -> None)
+     | XH -> Some (CoAnsi256 x))
+
+type style = { st_fg : color option; st_bg : color option;
+               st_ul : color option; st_eff : n }
+
+(** val st_new : style **)
+
+let st_new =
+  { st_fg = None; st_bg = None; st_ul = None; st_eff = e_new }
+
+(** val st_fg_color : style -> color option -> style **)
+
+let st_fg_color s v =
+  { st_fg = v; st_bg = s.st_bg; st_ul = s.st_ul; st_eff = s.st_eff }
+
+(** val st_bg_color : style -> color option -> style **)
+
+let st_bg_color s v =
+  { st_fg = s.st_fg; st_bg = v; st_ul = s.st_ul; st_eff = s.st_eff }
+
+(** val st_underline_color : style -> color option -> style **)
+
+let st_underline_color s v =
+  { st_fg = s.st_fg; st_bg = s.st_bg; st_ul = v; st_eff = s.st_eff }
+
+(** val st_effects : style -> n -> style **)
+
+let st_effects s e =
+  { st_fg = s.st_fg; st_bg = s.st_bg; st_ul = s.st_ul; st_eff = e }
+
+(** val st_get_fg_color : style -> color option **)
+
+let st_get_fg_color s =
+  s.st_fg
+
+(** val st_get_bg_color : style -> color option **)
+
+let st_get_bg_color s =
+  s.st_bg
+
+(** val st_get_underline_color : style -> color option **)
+
+let st_get_underline_color s =
+  s.st_ul
+
+(** val st_get_effects : style -> n **)
+
+let st_get_effects s =
+  s.st_eff
+
+(** val st_conv : conv_method -> style -> style **)
+
+let st_conv m s =
+  { st_fg = s.st_fg; st_bg = s.st_bg; st_ul = s.st_ul; st_eff =
+    (e_insert s.st_eff (conv_effect m)) }
+
+(** val o_is_none : 'a1 option -> bool **)
+
+let o_is_none = function
+| Some _ -> false
+| None -> true
+
+(** val st_is_plain : style -> bool **)
+
+let st_is_plain s =
+  (&&)
+    ((&&) ((&&) (o_is_none s.st_fg) (o_is_none s.st_bg)) (o_is_none s.st_ul))
+    (e_is_plain s.st_eff)
+
+(** val st_from_effects : n -> style **)
+
+let st_from_effects e =
+  st_effects st_new e
+
+(** val st_bitor : style -> n -> style **)
+
+let st_bitor s e =
+  { st_fg = s.st_fg; st_bg = s.st_bg; st_ul = s.st_ul; st_eff =
+    (e_bitor_assign s.st_eff e) }
+
+(** val st_bitor_assign : style -> n -> style **)
+
+let st_bitor_assign s e =
+  { st_fg = s.st_fg; st_bg = s.st_bg; st_ul = s.st_ul; st_eff =
+    (e_bitor_assign s.st_eff e) }
+
+(** val st_sub : style -> n -> style **)
+
+let st_sub s e =
+  { st_fg = s.st_fg; st_bg = s.st_bg; st_ul = s.st_ul; st_eff =
+    (e_sub_assign s.st_eff e) }
+
+(** val st_sub_assign : style -> n -> style **)
+
+let st_sub_assign s e =
+  { st_fg = s.st_fg; st_bg = s.st_bg; st_ul = s.st_ul; st_eff =
+    (e_sub_assign s.st_eff e) }
+
+(** val style_eqb : style -> style -> bool **)
+
+let style_eqb a b =
+  (&&)
+    ((&&) ((&&) (ocolor_eqb a.st_fg b.st_fg) (ocolor_eqb a.st_bg b.st_bg))
+      (ocolor_eqb a.st_ul b.st_ul)) (N.eqb a.st_eff b.st_eff)
+
+(** val st_eq_effects : style -> n -> bool **)
+
+let st_eq_effects s e =
+  style_eqb s (st_from_effects e)
